@@ -518,6 +518,10 @@ where
                 if !voted_in_current_term {
                     self.role.state_mut().reset_voted_for()?;
                 }
+                // Stepping down usually follows the discovery of a higher term: persist it.
+                self.ctx
+                    .raft_log()
+                    .save_hard_state(&self.role.state().shared_state().hard_state)?;
 
                 // Notify leader change listeners
                 let current_term = self.role.current_term();
